@@ -73,6 +73,24 @@ theorem gen_open_close_guards (vn f : Bool) (i : Int) (e : Bool) :
     Gen.CursorOps.cursorOpen false false i f e = .err "NewCursorOpenError" := by
   refine ⟨rfl, rfl, rfl, rfl⟩
 
+/-- OPEN when the query cannot be evaluated: guards first.  An open cursor answers "already open" exactly as
+    the generated code does with `evalFails = true` (the evaluation is not reached); a closed one reports the
+    evaluation's error; an unknown name "undeclared" -/
+theorem open_failing_guards_first {α} (s : Scope α) (n : String) :
+    (∀ rows i f, lookup s (key n) = some (.opened rows i f) →
+        stepOpenFailing s n = some .alreadyOpen ∧
+        Gen.CursorOps.cursorOpen false false i f true = .err "NewCursorOpenError") ∧
+    (lookup s (key n) = some .closed →
+        stepOpenFailing s n = none ∧ Gen.CursorOps.cursorOpen false true 0 false true = .err "err") ∧
+    (lookup s (key n) = none → stepOpenFailing s n = some .undeclared) := by
+  refine ⟨?_, ?_, ?_⟩
+  · intro rows i f h
+    exact ⟨by simp [stepOpenFailing, step, h, CState.open], rfl⟩
+  · intro h
+    exact ⟨by simp [stepOpenFailing, step, h, CState.open], rfl⟩
+  · intro h
+    simp [stepOpenFailing, step, h]
+
 /-- `IsOpen` is `view != nil`; `Pointer` (read by the harness for `index_inv`) is the index field -/
 theorem gen_isOpen_pointer_eq_model {α} (c : CState α) :
     Gen.CursorOps.cursorIsOpen c.viewNil = c.isOpen ∧ Gen.CursorOps.cursorPointer c.indexField = c.indexField := by
